@@ -111,7 +111,7 @@ class Stop(Command):
 class Continue(Command):
     CONTINUE_FN = 'continue_fn'
 
-    def __init__(self, continue_fn: Callable[..., Any], *args: Any, **kwargs: Any):
+    def __init__(self, continue_fn: Callable[..., Any], /, *args: Any, **kwargs: Any):
         super().__init__()
         self.continue_fn = continue_fn
         self.args = args
@@ -172,7 +172,7 @@ class Created(State):
 
     RUN_FN = 'run_fn'
 
-    def __init__(self, process: 'Process', run_fn: Callable[..., Any], *args: Any, **kwargs: Any) -> None:
+    def __init__(self, process: 'Process', run_fn: Callable[..., Any], /, *args: Any, **kwargs: Any) -> None:
         super().__init__(process)
         assert run_fn is not None
         self.run_fn = run_fn
@@ -211,7 +211,7 @@ class Running(State):
     _run_handle = None
 
     def __init__(
-        self, process: 'Process', run_fn: Callable[..., Union[Awaitable[Any], Any]], *args: Any, **kwargs: Any
+        self, process: 'Process', run_fn: Callable[..., Union[Awaitable[Any], Any]], /, *args: Any, **kwargs: Any
     ) -> None:
         super().__init__(process)
         assert run_fn is not None
